@@ -9,6 +9,9 @@ func (g *pgen) corpus(focus string, start int) []*ConvSpec {
 	if focus == "c07" {
 		return g.corpusC07(start)
 	}
+	if focus == "c05" || focus == "c04" {
+		return g.corpusSettings(start)
+	}
 	if focus != "c11" {
 		return nil
 	}
@@ -97,5 +100,32 @@ func (g *pgen) corpusC07(start int) []*ConvSpec {
 		c.Methods = []*MethodSpec{{Name: "M0", Src: tNamed(w), Tgt: tNamed(wo), Err: true, Fields: map[string]*fieldSet{}}}
 		out = append(out, c)
 	}
+	return out
+}
+
+// corpusSettings: field settings that must affect exactly the target struct of their method and must not be dropped
+// silently (findings F-C05-1, F-C05-2 of the design probes) and a method-level skipCopySameType on a named type that
+// occurs several times (F-C12-1).
+func (g *pgen) corpusSettings(start int) []*ConvSpec {
+	var out []*ConvSpec
+	in := g.newNamed(1, &Ty{K: "struct", Pkg: 1, Fields: []Field{{"A", tBasic(bkInt)}, {"B", tBasic(bkString)}}}, "S")
+	mk := func(name string) *Ty { return &Ty{K: "struct", Pkg: 1, Fields: []Field{{name, tBasic(bkInt)}}} }
+	// a. autoMap on a method whose target has another (unnamed) struct field
+	s1 := g.newNamed(1, &Ty{K: "struct", Pkg: 1, Fields: []Field{{"Inner", tNamed(in)}, {"M", mk("X")}}}, "S")
+	t1 := g.newNamed(1, &Ty{K: "struct", Pkg: 1, Fields: []Field{{"A", tBasic(bkInt)}, {"B", tBasic(bkString)}, {"M", mk("X")}}}, "T")
+	c1 := &ConvSpec{Name: fmt.Sprintf("C%d", start)}
+	c1.Methods = []*MethodSpec{{Name: "M0", Src: tNamed(s1), Tgt: tNamed(t1), Lines: []string{"autoMap Inner"}, Auto: []string{"Inner"}, Fields: map[string]*fieldSet{}}}
+	// b. method-level skipCopySameType, the same named struct three times
+	n := g.newNamed(1, &Ty{K: "struct", Pkg: 1, Fields: []Field{{"V", tSlice(tBasic(bkInt))}}}, "S")
+	s2 := g.newNamed(1, &Ty{K: "struct", Pkg: 1, Fields: []Field{{"A", tNamed(n)}, {"B", tNamed(n)}, {"C", tNamed(n)}}}, "S")
+	t2 := g.newNamed(1, &Ty{K: "struct", Pkg: 1, Fields: []Field{{"A", tNamed(n)}, {"B", tNamed(n)}, {"C", tNamed(n)}}}, "T")
+	c2 := &ConvSpec{Name: fmt.Sprintf("C%d", start+1)}
+	c2.Methods = []*MethodSpec{{Name: "M0", Src: tNamed(s2), Tgt: tNamed(t2), Lines: []string{"skipCopySameType"}, Fields: map[string]*fieldSet{}}}
+	// c. ignoreUnexported together with an explicit map onto an unexported target field (output in package p)
+	s3 := g.newNamed(1, &Ty{K: "struct", Pkg: 1, Fields: []Field{{"X", tBasic(bkInt)}, {"Z", tBasic(bkInt)}}}, "S")
+	t3 := g.newNamed(1, &Ty{K: "struct", Pkg: 1, Fields: []Field{{"y", tBasic(bkInt)}, {"w", tBasic(bkInt)}, {"Z", tBasic(bkInt)}}}, "T")
+	c3 := &ConvSpec{Name: fmt.Sprintf("C%d", start+2), SamePkg: true}
+	c3.Methods = []*MethodSpec{{Name: "M0", Src: tNamed(s3), Tgt: tNamed(t3), Lines: []string{"ignoreUnexported", "map X y"}, Fields: map[string]*fieldSet{"y": {Source: "X"}}}}
+	out = append(out, c1, c2, c3)
 	return out
 }
